@@ -8,9 +8,9 @@ import re
 import struct
 from framework import REPO, ROOT
 
-TIE = ["Nsq.Tie.Proto", "Nsq.Tie.ProtoBase10", "Nsq.Tie.NamesFn"]
-PROPS = ["Nsq.Props.C09"]
-HARNESS = ["e3/infra_test.go", "e3/proto_test.go", "e3/http_test.go"]
+TIE = ["Nsq.Tie.Proto", "Nsq.Tie.ProtoBase10", "Nsq.Tie.ProtoFunc", "Nsq.Tie.ProtoIdentify", "Nsq.Tie.NamesFn"]
+PROPS = ["Nsq.Props.C09", "Nsq.Props.C09Identify"]
+HARNESS = ["e3/infra_test.go", "e3/proto_test.go", "e3/http_test.go", "e3/httpfull_test.go", "e3/identify_test.go"]
 NAME_RE = re.compile(rb"^[.a-zA-Z0-9_-]+(#ephemeral)?$")
 
 
@@ -466,6 +466,44 @@ def ops_conf_line(ops, cid):
     return ""
 
 
+def identify_leg(ctx, binp, corr_broken):
+    """Round 6: IDENTIFY field by field (`idn` ops replayed through Nsq.Model.Identify.identifyFull) and the
+    model-free oracle "the response document reflects exactly what was applied to the connection"."""
+    N = ctx.budget(2500, 15000)
+    rc, out = ctx.run_cmd([binp, "-test.run", "^TestVerifE3Identify$", "-test.count=1", "-test.timeout=3000s"],
+                          timeout=3200, env={"VERIF_SEED": ctx.seed, "VERIF_N": N, "VERIF_OUT": ctx.work,
+                                             "VERIF_REPO": REPO})
+    fails, okl = harness_lines(ctx, out, "idn")
+    for l in fails:
+        report_oracle_fail(ctx, l)
+    if rc != 0 or (not okl and not fails):
+        ctx.log("idn harness failed (rc=%s):\n%s" % (rc, out[-3000:]))
+        corr_broken.append("idn harness exit %s" % rc)
+    opsf = os.path.join(ctx.work, "idn.ops")
+    if not os.path.exists(opsf):
+        return
+    ops = open(opsf).read().splitlines()
+    impl = open(os.path.join(ctx.work, "idn.impl")).read().splitlines()
+    rc, mout = ctx.driver("e3", stdin_path=opsf, timeout=3000)
+    model = mout.splitlines()
+    ndiff = 0
+    for i, o in enumerate(ops):
+        a = impl[i] if i < len(impl) else "<missing>"
+        b = model[i] if i < len(model) else "<missing>"
+        if o.startswith("idn "):
+            ctx.count_case(o, nontrivial=True)
+            if i % 211 == 0:
+                ctx.add_sample({"op": o, "impl": a[:300]})
+        if a != b:
+            ndiff += 1
+            if ndiff <= 5:
+                ctx.log("IDENTIFY model/impl disagree on `%s`:\n   impl  %s\n   model %s" % (o[:300], a[:400], b[:400]))
+                corr_broken.append("correspondence idn: %s" % o[:160])
+                if ndiff == 1:
+                    ctx.corr["first_disagreement_idn"] = {"op": o[:2000], "impl": a[:2000], "model": b[:2000]}
+    ctx.diff_lines(impl, model, "idn")
+
+
 # ----------------------------------------------------------------------------- the check
 def run(ctx):
     ctx.trusted += [
@@ -500,6 +538,7 @@ def run(ctx):
     gen_ok, _ = ctx.gen("e3_proto")
     ctx.gen("e1_codec")   # the translated ByteToBase10 (kind func) for Nsq.Tie.ProtoBase10
     ctx.gen("e1_names")   # the translated isValidName / IsValidTopicName / IsValidChannelName (kind strfunc) for Nsq.Tie.NamesFn
+    ctx.gen("e3_protofunc")   # the four clientV2 setters translated (kind pfunc) for Nsq.Tie.ProtoFunc
     ok, log = ctx.lean_build(TIE + PROPS)
     if not ok:
         ctx.lean_obligation_failed("lake build " + " ".join(TIE + PROPS), log[-1500:])
@@ -559,6 +598,8 @@ def run(ctx):
             if ctx.replay_in:
                 for o, a, b in zip(ops, impl, model):
                     print("op    %s\n impl  %s\n model %s" % (o[:400], a[:600], b[:600]))
+    if binp and not ctx.replay_in:
+        identify_leg(ctx, binp, corr_broken)
     if (ctx.broken_ties or corr_broken) and not ctx.violations:
         ctx.broken_without_input(ctx.broken_ties + corr_broken,
                                  "search: %d generated operations, the probe/limit/number oracles and the "
